@@ -44,19 +44,19 @@ PROPS = {
     ),
     "C19": dict(
         title="Header text is a fixpoint after one parse (no field smuggling)",
-        lean_modules=["Gowarc.Props.C19"],
+        lean_modules=["Gowarc.Props.C19", "Gowarc.Props.C19pos"],
+        audit_namespaces=["Gowarc.Props.C19"],
         n_quick=3000, n_thorough=40000,
-        required_theorems=["decode_id", "C19_fixpoint_false", "C19_api_false"],
+        required_theorems=["decode_id", "C19_fixpoint_false", "C19_api_false", "C19_clean_roundtrip", "parseLine_clean", "readLine_clean", "parseLoop_field", "cleanField_of_cleanB"],
         model_assumptions=[
             "bufio.Reader is modelled by its contract (ReadBytes, Peek); the implementation's independence of the underlying chunking is checked by running every case under four read styles",
             "mime.WordDecoder.DecodeHeader, base64 decoding and strings.EqualFold are transcribed from the Go standard library (GOROOT of the pinned toolchain)",
         ],
         design_ref="DESIGN.md section 5, C19",
         level_text="Executable model of the header tokenizer incl. the RFC 2047 decoder, tied by correspondence on seeded header sections under the three syntax policies and a reader fault; "
-                   "theorems: decoder is the identity on lines without '=?', and kernel-checked witnesses that the full statement is false (encoded-word smuggling, edge white space), both listed findings; "
+                   "theorems: the round trip for clean fields (C19_clean_roundtrip: for every non-empty list of fields with canonical names, values without edge white space or LF and no '=?' in the line, every policy and every continuation, parse(write fs) = fs with no findings), decoder is the identity on lines without '=?', and kernel-checked witnesses that the full statement is false exactly through encoded-words and edge white space, both listed findings; "
                    "the fixpoint oracle runs on the implementation for every generated section",
-        level_note="Trusted: Lean kernel, correspondence harness. The universal round-trip theorem for clean fields (C19_api) is stated in DESIGN.md and proved in Props/C01 (header framing lemmas); here the "
-                   "property is decided by witness + partial theorem + correspondence.",
+        level_note="Trusted: Lean kernel, correspondence harness. The property as stated is false on the pinned tree (two open findings); what holds is proved: the fixpoint for clean fields, unbounded.",
     ),
     "C01": dict(
         title="Write-then-read round trip is lossless",
